@@ -46,7 +46,8 @@ Qed.
    (xx) resp. (xx, yy, xy) of the 3-D tables; C is padded with czz = 1, cyz = cxz = 0, so the
    reduced tables are the 3-D identities above instantiated at such l, restricted to these
    indices. *)
-Example slices_are_inplane : slice_dim1 = [0]%nat /\ slice_dim2 = [0;1;5]%nat /\ slice_dim3 = [0;1;2;3;4;5]%nat.
+Example slices_are_inplane : slice_dim1 = [0]%nat /\ slice_dim2 = [0;1;5]%nat /\ slice_dim3 = [0;1;2;3;4;5]%nat /\
+  mslice_dim1 = slice_dim1 /\ mslice_dim2 = slice_dim2 /\ mslice_dim3 = slice_dim3.
 Proof. repeat split. Qed.
 Example directions_zeroed : dir_zeroed_dim1 = [1;2]%nat /\ dir_zeroed_dim2 = [2]%nat.
 Proof. repeat split. Qed.
